@@ -70,13 +70,7 @@ func (n String) String() string {
 }
 
 func (n String) Number() float64 {
-	ret, err := strconv.ParseFloat(string(n), 64)
-
-	if err != nil {
-		return math.NaN()
-	}
-
-	return ret
+	return getStringNumber(string(n))
 }
 
 func (n String) Bool() bool {
@@ -102,13 +96,40 @@ func (n NodeSet) Bool() bool {
 }
 
 func getStringNumber(str string) float64 {
-	ret, err := strconv.ParseFloat(str, 64)
+	str = strings.Trim(str, " \t\r\n")
 
-	if err != nil {
+	if !isXPathNumber(str) {
 		return math.NaN()
 	}
 
+	ret, _ := strconv.ParseFloat(str, 64)
+
 	return ret
+}
+
+func isXPathNumber(str string) bool {
+	pos := 0
+	digits := 0
+
+	if pos < len(str) && str[pos] == '-' {
+		pos++
+	}
+
+	for pos < len(str) && str[pos] >= '0' && str[pos] <= '9' {
+		pos++
+		digits++
+	}
+
+	if pos < len(str) && str[pos] == '.' {
+		pos++
+	}
+
+	for pos < len(str) && str[pos] >= '0' && str[pos] <= '9' {
+		pos++
+		digits++
+	}
+
+	return digits > 0 && pos == len(str)
 }
 
 func GetCursorString(c store.Cursor) string {
